@@ -360,6 +360,12 @@ class DOK(SparseArray, NDArrayOperatorsMixin):
     def __setitem__(self, key, value):
         value = np.asarray(value, dtype=self.dtype)
 
+        # boolean mask of the array's shape: assign at its True positions
+        if isinstance(key, np.ndarray) and key.dtype == np.bool_ and key.ndim == self.ndim >= 1:
+            if key.shape != self.shape:
+                raise IndexError(f"boolean index of shape {key.shape} does not match the array shape {self.shape}")
+            key = np.nonzero(key)
+
         # 1D fancy indexing: a list or array of integers (a tuple is an ordinary index tuple)
         if (
             self.ndim == 1
